@@ -142,7 +142,7 @@ func C04(rep *ev.Reporter, tier string) {
 				if okModel([]string{a, b}) {
 					emit(mkCase(fmt.Sprintf("c04/pair/%d.%d", i, j), "seq="+a+";"+b, []string{a, b}))
 				}
-				if tier == "thorough" {
+				if tier == "thorough" || (i%3 == 0 && j%3 == 1) {
 					for k, c := range c04Seq {
 						if okModel([]string{a, b, c}) {
 							emit(mkCase(fmt.Sprintf("c04/triple/%d.%d.%d", i, j, k), "seq="+a+";"+b+";"+c, []string{a, b, c}))
